@@ -139,7 +139,7 @@ pub fn found_dir(id: &str) -> PathBuf {
 
 /// Run one shard of a check's generated search. Never panics on a violation; returns the stats.
 pub fn run_shard<C: Check>(tier: Tier, seed: u64, shard: u32, nshards: u32, current: Option<&Path>) -> ShardOut {
-    let total = C::cases(tier);
+    let total = std::env::var("VERIF_CASES_OVERRIDE").ok().and_then(|s| s.parse().ok()).unwrap_or(C::cases(tier)); // (development aid)
     let cases = (total + nshards - 1) / nshards;
     let ctx = Ctx {
         tier,
